@@ -2,6 +2,7 @@ import Driver.QueueAcc
 import Driver.AdderAcc
 import Driver.BreakerAcc
 import Driver.PoolAcc
+import Driver.LockedAcc
 /-!
 Generic run loop for trace acceptors.  Input: runs separated by `reset …` lines and closed by `end`.
 Output per run: `ACCEPT <run> steps=<n> <summary>` or `REJECT <run> line=<n> :: <line> :: <reason>`;
@@ -75,6 +76,20 @@ def breakerAcceptor : Acceptor BreakerAcc.AccSt where
   pc := fun st t => BreakerAcc.pcName (BreakerAcc.getL st t)
   summary := fun st => s!"steps={st.steps} objs={st.g.objs.length} cur={st.g.cur} wins={st.g.wins.length} buckets={st.g.buckets.length} ghost={st.ghost.reverse}"
   stuck := fun st => st.ls.filterMap (fun (t, l) => match l with | .idle => none | l => some s!"{t}:{BreakerAcc.pcName l}")
+
+def mqueueAcceptor : Acceptor (LockedAcc.AccSt (List Nat) Garr.Locked.QOp Garr.Locked.QRet) where
+  init := fun _ => { g := { st := Garr.Locked.queueProg.init } }
+  line := LockedAcc.processLine Garr.Locked.queueProg LockedAcc.parseQOp LockedAcc.showQRet
+  pc := fun st t => LockedAcc.pcName (LockedAcc.getL st t)
+  summary := fun st => s!"steps={st.steps} state={st.g.st}"
+  stuck := fun _ => []
+
+def madderAcceptor : Acceptor (LockedAcc.AccSt Int Garr.Locked.AOp (Option Int)) where
+  init := fun _ => { g := { st := Garr.Locked.adderProg.init } }
+  line := LockedAcc.processLine Garr.Locked.adderProg LockedAcc.parseAOp LockedAcc.showARet
+  pc := fun st t => LockedAcc.pcName (LockedAcc.getL st t)
+  summary := fun st => s!"steps={st.steps} state={st.g.st}"
+  stuck := fun _ => []
 
 def poolAcceptor : Acceptor PoolAcc.AccSt where
   init := PoolAcc.initSt
